@@ -39,6 +39,7 @@ def _tlc_phase(prop, models, probes, families, timeout):
         kw = dict(f)
         fam, adds, post = kw.pop("fam"), kw.pop("adds"), kw.pop("post")
         kw.pop("limit", None)
+        kw.pop("att", None)
         if kw.get("simulate"):
             kw["seed"] = vlib.SEED
         kw.setdefault("timeout", timeout)
@@ -81,6 +82,11 @@ def run_build_check(prop, tier, *, models, probes, families, limit, nontrivial, 
     for f, (cs, run) in gens:
         fam, adds, post, lim, sim = f["fam"], f["adds"], f["post"], f.get("limit"), f.get("simulate")
         total = len(cs)
+        if f.get("att"):
+            for c in cs:
+                c["att_fam"] = f["att"]
+        if getattr(run, "nondet", 0):
+            log("  note: model %s/%d/%d: %d constructions end differently depending on the order in which the node map is walked" % (fam, adds, post, run.nondet))
         if lim and len(cs) > lim:
             rnd.shuffle(cs)
             cs = cs[:lim]
@@ -119,7 +125,7 @@ def run_build_check(prop, tier, *, models, probes, families, limit, nontrivial, 
     for cid, obs in idx.items():
         real, pred = build.outcome(obs), by_id[cid]["pred"]
         real = [x for x in real if x != "-"]
-        if real != pred:
+        if real not in by_id[cid].get("pred_alt", [pred]):
             drift.append({"id": cid, "real": real, "model": pred, "ops": [[o["op"], o["k"] or o["a"], o["b"] or o["t"], o["ends"]] for o in by_id[cid]["ops"]]})
     drift_kinds = {}
     for d in drift:
@@ -138,7 +144,7 @@ def run_build_check(prop, tier, *, models, probes, families, limit, nontrivial, 
         exh = [f for f in families if not f.get("simulate")]
 
         def regen(f):
-            kw = {k: v for k, v in f.items() if k not in ("fam", "adds", "post", "limit", "workers")}
+            kw = {k: v for k, v in f.items() if k not in ("fam", "adds", "post", "limit", "workers", "att")}
             return build.gen(f["fam"], f["adds"], f["post"], fix=build.AS_CODED, workers=1, **kw)[0]
         with concurrent.futures.ThreadPoolExecutor(max_workers=4) as ex:
             regs = list(ex.map(regen, exh))
@@ -265,13 +271,14 @@ def c07(tier, repo=None):
 def c20(tier, repo=None):
     probes = [("D15: Compile dereferences the nil helper of an untyped pass-through", "flow", 1, 0, dict(build.REPAIRED, FixD15=False), "NoPanic"),
               ("D7: a second Compile appends to the handler maps the first runnable shares", "wf", 0, 1, dict(build.REPAIRED, FixD7=False), "FrozenMaps")]
+    # (D30 is an outcome that depends on map order: no single-state invariant shows it; the generator reports such constructions instead)
     if tier == "quick":
         models = [("seq", 2, 0, ["AllOutcome", "FrozenMaps"]), ("seqp", 2, 0, ["AllOutcome", "FrozenMaps"]), ("wf", 0, 2, ["AllOutcome", "FrozenMaps"]),
                   ("wfin", 3, 1, ["AllOutcome", "FrozenMaps"]), ("flow", 1, 1, ["AllOutcome", "FrozenMaps"]),
                   ("chain", 2, 2, ["AllOutcome", "FrozenMaps"]), ("cyc", 3, 0, ["AllOutcome", "FrozenMaps"], 2),
-                  ("subopt", 0, 1, ["AllOutcome", "FrozenMaps"])]
+                  ("subopt", 0, 1, ["AllOutcome", "FrozenMaps"]), ("wfpt", 2, 0, ["AllOutcome", "FrozenMaps"])]
         fams = [dict(fam="seq", adds=2, post=0), dict(fam="seqp", adds=2, post=0), dict(fam="wf", adds=0, post=2), dict(fam="wfin", adds=3, post=1),
-                dict(fam="flow", adds=1, post=1), dict(fam="chain", adds=2, post=2), dict(fam="cyc", adds=3, post=0, br=2), dict(fam="subopt", adds=0, post=1),
+                dict(fam="flow", adds=1, post=1), dict(fam="chain", adds=2, post=2), dict(fam="cyc", adds=3, post=0, br=2), dict(fam="subopt", adds=0, post=1), dict(fam="wfpt", adds=2, post=0, att=40),
                 dict(fam="seqs", adds=2, post=1, simulate="num=240", depth=50, limit=5000),
                 dict(fam="seq", adds=4, post=2, aftererr=2, simulate="num=320", depth=70, limit=8000)]
         limit = 60000
@@ -279,15 +286,18 @@ def c20(tier, repo=None):
         models = [("seq", 2, 0, ["AllOutcome", "FrozenMaps"]), ("seqp", 2, 0, ["AllOutcome", "FrozenMaps"]), ("seqs", 1, 1, ["AllOutcome", "FrozenMaps"]),
                   ("wf", 0, 3, ["AllOutcome", "FrozenMaps"]), ("wfin", 4, 1, ["AllOutcome", "FrozenMaps"]), ("flow", 2, 1, ["AllOutcome", "FrozenMaps"]),
                   ("chain", 3, 3, ["AllOutcome", "FrozenMaps"]), ("cyc", 3, 0, ["AllOutcome", "FrozenMaps"], 2),
-                  ("subopt", 0, 2, ["AllOutcome", "FrozenMaps"])]
+                  ("subopt", 0, 2, ["AllOutcome", "FrozenMaps"]), ("wfpt", 2, 1, ["AllOutcome", "FrozenMaps"])]
         fams = [dict(fam="seq", adds=2, post=0), dict(fam="seqp", adds=2, post=0), dict(fam="seqs", adds=1, post=1), dict(fam="wf", adds=0, post=3),
-                dict(fam="wfin", adds=4, post=1), dict(fam="chain", adds=3, post=3), dict(fam="cyc", adds=3, post=0, br=2), dict(fam="subopt", adds=0, post=2),
+                dict(fam="wfin", adds=4, post=1), dict(fam="chain", adds=3, post=3), dict(fam="cyc", adds=3, post=0, br=2), dict(fam="subopt", adds=0, post=2), dict(fam="wfpt", adds=2, post=1, att=40),
                 dict(fam="cyc", adds=5, post=1, br=3, simulate="num=3000", depth=80),
                 dict(fam="flow", adds=2, post=1, timeout=1500),
                 dict(fam="seqs", adds=3, post=1, aftererr=2, simulate="num=2500", depth=60),
                 dict(fam="seqp", adds=4, post=2, aftererr=2, br=2, simulate="num=3000", depth=80),
                 dict(fam="seq", adds=5, post=2, aftererr=2, br=2, simulate="num=4000", depth=80)]
         limit = 600000
+    # D30 at model level: with FixD30 off the model itself ends some workflow constructions in two ways (order of the node map)
+    _, pre = build.gen("wfpt", 2, 0, fix=dict(build.REPAIRED, FixD30=False), workers=1)
+    log("  model wfpt/2/0 before the repair D30: %d constructions whose Compile outcome depends on the order of the node map" % pre.nondet)
     return run_build_check("C20", tier, models=models, probes=probes, families=fams, limit=limit, nontrivial=_violation_or_post, repo=repo,
                            assumptions=[
                                "'the first error sticks' is read for Add* errors: a failed Compile (missing entry, cycle ...) is not recorded by the "
